@@ -1,6 +1,10 @@
 package ecdsa
 
 import (
+	"errors"
+	"fmt"
+
+	"github.com/fxamacker/cbor/v2"
 	"github.com/taurusgroup/multi-party-sig/pkg/math/curve"
 )
 
@@ -69,4 +73,26 @@ func (sig Signature) SigEthereum() ([]byte, error) {
 	}
 
 	return rs, nil
+}
+
+type signatureAlias Signature
+
+// UnmarshalCBOR decodes a stored Signature created with EmptySignature. Encodings that leave a
+// field absent, or that make the decoder panic (null in a point or scalar field), are refused.
+func (sig *Signature) UnmarshalCBOR(data []byte) (err error) {
+	defer func() {
+		if p := recover(); p != nil {
+			err = fmt.Errorf("signature: malformed encoding: %v", p)
+		}
+	}()
+	if sig.R == nil || sig.S == nil {
+		return errors.New("signature must be initialized using EmptySignature")
+	}
+	if err = cbor.Unmarshal(data, (*signatureAlias)(sig)); err != nil {
+		return err
+	}
+	if sig.R == nil || sig.S == nil {
+		return errors.New("signature: missing field")
+	}
+	return nil
 }
